@@ -1,6 +1,8 @@
 //! vh: conformance harness. `vh <engine> --cases <file> --out <trace.ndjson> [--seed N] [--tier quick|thorough]`
 mod common;
+mod eng_bereq;
 mod eng_client;
+mod eng_gpu;
 mod eng_server;
 mod eng_session;
 mod feops;
@@ -40,6 +42,14 @@ fn main() {
         "server" => {
             let cases = read_cases(&arg(&args, "--cases").expect("--cases"));
             eng_server::run(&cases, &mut trace, seed);
+        }
+        "bereq" => {
+            let cases = read_cases(&arg(&args, "--cases").expect("--cases"));
+            eng_bereq::run(&cases, &mut trace, seed);
+        }
+        "gpu" => {
+            let cases = read_cases(&arg(&args, "--cases").expect("--cases"));
+            eng_gpu::run(&cases, &mut trace, seed);
         }
         "client" => {
             let cases = read_cases(&arg(&args, "--cases").expect("--cases"));
